@@ -24,7 +24,7 @@ CACHE = os.environ.get("VERIF_CACHE", os.path.join(VERIF, ".cache"))
 HARNESS = os.path.join(VERIF, "harness")
 LEAN_BIN = os.path.join(LEAN, ".lake", "build", "bin")
 IMPL_BIN = os.path.join(CACHE, "target-harness", "debug")
-SERVER_BIN = os.path.join(CACHE, "target-bin", "debug", "ferrous")
+SERVER_BIN = os.environ.get("VERIF_SERVER_BIN_ALL") or os.path.join(CACHE, "target-bin", "debug", "ferrous")      # (override: exploration against another build of the same tree only)
 REPLAYS = os.environ.get("VERIF_REPLAYS", os.path.join(VERIF, "replays"))
 EVIDENCE = os.environ.get("VERIF_EVIDENCE", os.path.join(VERIF, "evidence"))
 ALLOWED_AXIOMS = {"propext", "Classical.choice", "Quot.sound"}
@@ -273,20 +273,23 @@ def build_harness(family, checked=False):
         raise InternalError("harness does not build against %s:\n%s" % (REPO, out[-4000:]))
 
 
-def build_server():
-    """The real `ferrous` binary from /repo's working tree, feature `verif`, release arithmetic."""
+def build_server(checked=False):
+    """The real `ferrous` binary from /repo's working tree, feature `verif`, release arithmetic.
+    `checked=True`: a second build with the arithmetic of a plain `cargo build` (overflow checks and debug assertions ON) into
+    target-bin-checked; returns the path of the binary built."""
     with BuildLock("cargo-bin"):
         cmd = ["cargo", "build", "--offline", "--quiet", "--bin", "ferrous",
                "--manifest-path", os.path.join(REPO, "Cargo.toml"),
-               "--features", "verif", "--target-dir", os.path.join(CACHE, "target-bin"),
+               "--features", "verif", "--target-dir", os.path.join(CACHE, "target-bin-checked" if checked else "target-bin"),
                "--config", "profile.dev.opt-level=1",
-               "--config", "profile.dev.overflow-checks=false",
-               "--config", "profile.dev.debug-assertions=false",
+               "--config", "profile.dev.overflow-checks=%s" % ("true" if checked else "false"),
+               "--config", "profile.dev.debug-assertions=%s" % ("true" if checked else "false"),
                "--config", "profile.dev.debug=false",
                "--config", "profile.dev.incremental=false"]
         rc, out = run(cmd, cwd=CACHE)
     if rc != 0:
         raise InternalError("ferrous does not build:\n" + out[-4000:])
+    return os.path.join(CACHE, "target-bin-checked" if checked else "target-bin", "debug", "ferrous")
 
 
 # --------------------------------------------------------------------------
